@@ -71,6 +71,10 @@ FEATURES = {
     "nested_caps": "message A { message B { int32 x = 1; message C { int32 z = 1; } C c = 2; } enum E { E_ZERO = 0; E_ONE = 1; } B b = 1; E e = 2; repeated B bs = 3; map<string, B> bm = 4; } message TypeA { message X1 { int32 y = 1; } X1 x = 1; A.B ab = 2; A.B.C abc = 3; } message HTTPServer { message TLSConfig { bool on = 1; } TLSConfig tls = 1; }",
     # members whose names start with a digit once the enum-name prefix is stripped (the plugin emits _1, _2_0)
     "enum_digit_members": "enum Version { VERSION_UNSPECIFIED = 0; VERSION_1 = 1; VERSION_2_0 = 2; V3 = 3; version_4 = 4; } message M { Version v = 1; repeated Version r = 2; }",
+    # builtin-colliding names that differ from the builtin by case only (the attribute is the lower-case builtin name)
+    "builtin_case": "message M { int32 Int = 1; int32 a = 2; repeated int32 b = 3; string STR = 4; string c = 5; bytes Bytes = 6; map<string, bytes> d = 7; optional int32 e = 8; }",
+    # enum values that are Python keywords, with and without the enum-name prefix
+    "enum_keyword_members": "enum E { None = 0; True = 1; class = 2; lambda = 3; E_in = 4; E_False = 5; } message M { E e = 1; repeated E r = 2; }",
     "builtin_list_dict": "message M { int32 list = 1; repeated int32 a = 2; map<string, int32> dict = 3; map<string, int32> m = 4; optional int32 o = 5; }",
     "builtin_int": "message M { int64 int = 1; repeated int32 a = 2; optional int64 b = 3; map<string, sint32> c = 4; oneof g { uint32 d = 5; string e = 6; } }",
     "builtin_str": "message M { string str = 1; repeated string a = 2; optional string b = 3; map<string, string> c = 4; oneof g { string d = 5; int32 e = 6; } }",
@@ -124,6 +128,15 @@ EXTRA_SETS: Dict[str, Dict[str, str]] = {
                            "message True { enum Kind { KIND_ZERO = 0; KIND_ONE = 1; } Kind k = 1; message Deep { message Deeper { int32 z = 1; } Deeper d = 1; } Deep deep = 2; }\n"
                            "message User { None n = 1; None.Inner ni = 2; True.Kind tk = 3; Holder._1st h = 4; }\n",
     },
+    # package names that are string prefixes of each other without being parent and child
+    "prefix_packages": {
+        "pp_cart.proto": _P3 + 'package vfshop2.cart;\nimport "pp_cartoon.proto";\nimport "pp_cartoon_types.proto";\nmessage Cart { vfshop2.cartoon.Toon toon = 1; '
+                         "vfshop2.cartoon.types.Frame frame = 2; repeated vfshop2.cartoon.Toon toons = 3; map<string, vfshop2.cartoon.types.Frame> frames = 4; vfshop2.cartoon.Style style = 5; }\n",
+        "pp_cartoon.proto": _P3 + "package vfshop2.cartoon;\nmessage Toon { string name = 1; }\nenum Style { STYLE_PLAIN = 0; STYLE_BOLD = 1; }\n",
+        "pp_cartoon_types.proto": _P3 + "package vfshop2.cartoon.types;\nmessage Frame { int32 n = 1; }\n",
+        "pp_pkg1.proto": _P3 + 'package vfpkg1;\nimport "pp_pkg10.proto";\nmessage One { vfpkg10.Ten ten = 1; }\n',
+        "pp_pkg10.proto": _P3 + "package vfpkg10;\nmessage Ten { int32 x = 1; }\n",
+    },
     # user types named like names the runtime itself imports / defines
     "named_like_library": {
         "nl_types.proto": _P3 + "package vfnames;\nmessage Duration { int32 minutes = 1; string label = 2; }\nmessage Timestamp { int64 ticks = 1; }\n"
@@ -176,7 +189,7 @@ def item_name(item: dict) -> str:
     if k == "inputs":
         return f"inputs:{item['dir']}"
     if k == "extra":
-        return f"extra:{item['name']}"
+        return f"extra:{item['name']}" + (":roots-on-cmdline" if item.get("cmdline") == "roots" else "")
     return k + (":" + item["plugin_opts"] if item.get("plugin_opts") else "")
 
 
@@ -190,7 +203,7 @@ def build_item(item: dict, opts: str = "") -> Build:
         b.full()
         handmade.install(b)
         return b
-    b = Build(item_protos(item), opts or item.get("plugin_opts", ""))
+    b = Build(item_protos(item), opts or item.get("plugin_opts", ""), cmdline=item.get("cmdline", "all"))
     b.full()
     return b
 
